@@ -3,7 +3,6 @@ package main
 import (
 	"context"
 	"crypto/sha256"
-	"encoding/binary"
 	"fmt"
 	"math/big"
 	"math/rand"
@@ -759,5 +758,3 @@ func c37run(casesPath, out string) {
 func scparserBytes(it scparser.PushedItem) ([]byte, error) {
 	return scparser.GetBytesFromInstr(it.Instruction)
 }
-
-var _ = binary.LittleEndian
